@@ -25,7 +25,7 @@ theorem encodeFields_length_ge : ∀ (fs : List Field), fs.length ≤ (encodeFie
 
 /-- both passes of the block decoder over "string table, one dense group" -/
 theorem block_decode_dense (o : Opts) (strs : List Bytes) (r : DenseRow) (rs : List DenseRow) (nodes : List (Meta × Location))
-    (hs : ∀ s ∈ strs, s.length ≤ 1024) (hrep : RowsRep o strs (r :: rs) nodes)
+    (hs : ∀ s ∈ strs, StrOk s) (hrep : RowsRep o strs (r :: rs) nodes)
     (hlen : (encodeFields (encDense o (r :: rs))).length < 2 ^ 32) :
     decodeBlock {} [fBytes 1 (encodeFields (strs.map (fBytes 1))),
       fBytes 2 (encodeFields [fBytes 2 (encodeFields (encDense o (r :: rs)))])] =
@@ -78,11 +78,11 @@ theorem blockInv_message_decode (o : Opts) (b : Block) (dec : List Object) (hb :
     have h2 : b.table.size = (b.table.strings.map (fBytes 1)).length := by simp [Table.size, Table.strings]
     have : PbfFraming.maxUncompressedBlobSize ≤ 2 ^ 31 := by decide
     omega
-  have hstrs : ∀ s ∈ b.table.strings, s.length ≤ 1024 := by
+  have hstrs : ∀ s ∈ b.table.strings, StrOk s := by
     intro s hs
     simp only [Table.strings, List.mem_cons] at hs
     rcases hs with rfl | hs
-    · simp
+    · exact strOk_nil
     · exact hb.tab s hs
   rw [hmsg]
   unfold withFields
